@@ -3,6 +3,14 @@
 import json, os
 root = os.path.dirname(os.path.dirname(os.path.abspath(__file__)))
 CHECKS = [
+ dict(id="C11", level="exploration", engine="gen + v1 down-converter", design="§5 C11",
+      technique="bounded exhaustive program enumeration, differential execution of the version-1 encoding (produced by a harness down-converter that is validated by an independent up-converter on every program) against the original bytecode",
+      text="Every program of the C03 space (cores <= 2 nodes, thorough 3), of the C02 families and of a dedicated jump grammar (if/else, loops, &&, ||, ?:, try; x 4 inputs) is compiled, converted to version 1, encoded under a version-1 header, decoded by the implementation and run; value, probe log, error name+message and stack-trace lines must equal the original's.",
+      note="Trusted: the harness down-converter (self-checked by up(down(p)) == p on every program). Programs with positions beyond 16 bits are outside version 1 and skipped (counted)."),
+ dict(id="C19", level="exploration", engine="inputs (subprocess, ulimit, call timeout)", design="§5 C19",
+      technique="bounded exhaustive input enumeration: every callable x every argument tuple up to a length over a boundary-value pool x three call routes, in resumable worker processes with crash and hang attribution",
+      text="All builtin functions, error New constructors, every function of the fmt/json/strings/time modules and every method name of time values are called with every argument tuple of length 0..3 (thorough 0..4) over a 26-value boundary pool through Object.Call, CallEx with a VM (also with the arguments split into positional and variadic part) and a script call on a VM without recovery. A panic, a fatal runtime error under a 2 GiB address-space limit, a call that does not return within 20 s, or (nil, nil) is a violation.",
+      note="time.Sleep with more than 1 ms is excluded (blocking is its specification); the compiler-internal :makeArray is excluded; sizes that merely exhaust this sandbox's memory are not in the pool (uGO documents that it has no allocation limit), 1<<62 is."),
  dict(id="C17", level="exploration", engine="inputs (differential vs encoding/json)", design="§5 C17",
       technique="bounded exhaustive input enumeration (all byte strings up to a length over a reduced alphabet, all token sequences, all nested values over a leaf pool), differential against encoding/json",
       text="Every uGO value of depth <= 2 with <= 2 elements over a 50-leaf pool (boundary numbers, NaN/Inf, HTML/U+2028/invalid-UTF-8/control strings, bytes of every base64 size class up to 1000 bytes, chars, undefined) in array/map/syncMap plus 24 non-plain objects is marshalled: output must be valid JSON, equal to encoding/json for plain values, and round-trip through Unmarshal. Every byte string of length <= 5 (thorough 7) over a 16-symbol JSON alphabet, every string of <= 6 bytes over the U+2028/U+2029 bytes and every sequence of <= 3 (thorough 4) tokens from a 33-token alphabet is given to Valid, Unmarshal, Compact (both escape modes) and Indent (3 prefix/indent pairs) and compared with encoding/json.",
